@@ -120,6 +120,8 @@ def snapshot_fields(canon):
             out['cmemo'] = part[2:]
         elif part.startswith('S:'):
             out['started'] = part[2:] == '1'
+        elif part.startswith('QQ:'):
+            out['queues'] = part[3:]
         elif part.startswith('I:'):
             out['introhash'] = part[2:]
         elif part.startswith('FO:'):
@@ -185,10 +187,11 @@ def iterate(outfile):
 class Conformer:
     """drives the model alongside the explored executions"""
 
-    def __init__(self, zoo, cfg, faults=False, n_menu=0, submit_in_nt=False, observe_flags=False):
+    def __init__(self, zoo, cfg, faults=False, n_menu=0, submit_in_nt=False, observe_flags=False, warm=None):
         self.z = desc.for_family(zoo, cfg)
         self.cfg = cfg
         self.opts = {'faults': faults, 'n_menu': n_menu, 'submit_in_nt': submit_in_nt, 'cfg': cfg, 'observe_flags': observe_flags}
+        self.warm = tuple(int(v) for v in warm.split(':')) if warm else None
         self.worlds = {}
         self.canon = {}
         self.intro = {}
@@ -234,6 +237,10 @@ class Conformer:
                     w = w0.clone()
                     try:
                         mret, mtrace = w.op(x.op, x.ev, x.tape)
+                        if x.op == 'start' and self.warm:
+                            # the same uncounted prefix of handled events the explorer applies after start()
+                            for _ in range(self.warm[0]):
+                                w.op('pe', self.warm[1], {})
                         x.mret = mret
                         x.mtrace = [Tok(t) for t in mtrace]
                         x.mworld = w
